@@ -155,14 +155,35 @@ def run_unit(name, canary=False, timeout=600):
 EXPANDED = os.path.join(BUILD, "expand", "expanded%s.rs" % _TAG)
 
 
+def _tree_digest():
+    h = hashlib.sha256()
+    files = [os.path.join(REPO, "Cargo.toml"), os.path.join(REPO, "Cargo.lock"), os.path.join(REPO, "build.rs")]
+    for d, _, fs in sorted(os.walk(os.path.join(REPO, "src"))):
+        files += [os.path.join(d, f) for f in sorted(fs)]
+    for d, _, fs in sorted(os.walk(os.path.join(REPO, "scripts"))):
+        files += [os.path.join(d, f) for f in sorted(fs)]
+    for f in files:
+        if os.path.isfile(f):
+            h.update(f.encode() + b"\0" + open(f, "rb").read() + b"\0")
+    return h.hexdigest()
+
+
 def expand_crate():
-    """macro-expand the current /repo tree (derive(Nom) output) with the nightly toolchain; returns error text or ''"""
+    """macro-expand the current /repo tree (derive(Nom) output) with the nightly toolchain; returns error text or ''.
+    The expansion is reused only while the content digest of every input file of the crate is unchanged."""
     os.makedirs(os.path.dirname(EXPANDED), exist_ok=True)
+    dig = _tree_digest()
+    stamp = EXPANDED + ".digest"
+    if os.path.exists(EXPANDED) and os.path.exists(stamp) and open(stamp).read() == dig:
+        return ""
     tgt = os.path.join(BUILD, "expand", "target" + _TAG)
     rc, so, se, wall = run(["cargo", "+nightly", "rustc", "--offline", "--lib", "--target-dir", tgt, "--", "-Zunpretty=expanded"], cwd=REPO, timeout=900)
     if rc != 0 or "mod tls_dh" not in so:
         return (se or so)[-1500:]
-    open(EXPANDED, "w").write(so)
+    tmp = EXPANDED + ".tmp%d" % os.getpid()
+    open(tmp, "w").write(so)
+    os.replace(tmp, EXPANDED)
+    open(stamp, "w").write(dig)
     return ""
 
 
